@@ -325,8 +325,16 @@ func (g *celGen) intTerm(depth int, allowValue bool) string {
 		g.feat("mul")
 		return g.intTerm(depth-1, allowValue) + " * " + g.intTerm(depth-1, allowValue)
 	case 5, 6:
+		// a parenthesised BINARY operation (the parentheses of a bare operand are dropped by the CEL parser anyway):
+		// as the right operand of * / % - or the left operand of * / % the grouping matters
 		g.feat("paren-arith")
-		return "(" + g.intTerm(depth-1, allowValue) + ")"
+		op := g.pick("+", "-", "*", "/", "%")
+		rhs := g.intTerm(depth-1, allowValue)
+		if op == "/" || op == "%" {
+			rhs = g.pick("2", "3", "-2", "this.Y")
+			g.feat(map[string]string{"/": "div", "%": "mod"}[op])
+		}
+		return "(" + g.intTerm(depth-1, allowValue) + " " + op + " " + rhs + ")"
 	case 7:
 		g.feat("size")
 		g.feat("this")
@@ -372,7 +380,7 @@ func (g *celGen) atom(depth int) string {
 			return g.pick("0", "1", "5", "18", "100") + " " + g.cmp() + " " + g.intTerm(1, true)
 		default:
 			g.feat("cmp")
-			return g.intTerm(depth, true) + " " + g.cmp() + " " + g.intTerm(depth, true)
+			return g.intTerm(depth+g.rng.Intn(2), true) + " " + g.cmp() + " " + g.intTerm(depth, true)
 		}
 	case g.isUint():
 		switch g.rng.Intn(5) {
@@ -636,6 +644,14 @@ func celCorpus() []celCase {
 		// the literal `true` would still compile there)
 		{"[]bool", "value[0]"}, {"[]bool", "value[0] || size(value) == 0"}, {"[]bool", "size(value) > 1 && !value[1]"}, {"[]bool", "value[size(value) - 1]"},
 		{"[]bool", "value[this.X]"}, {"[]bool", "value[this.Y]"}, {"string", "bool(value)"}, {"string", "!bool(value)"}, {"[]bool", "value.all(b, b)"}, {"[]bool", "true in value"},
+		// explicit grouping on the RIGHT of an operator of the same precedence class, and on the left of a higher one
+		{"int", "value * (this.X / this.Y) > 3"}, {"int", "value * (this.X % 3) == 2"}, {"int", "value + (this.X - this.Y) > 0"}, {"int", "value - (this.X + this.Y) < 0"},
+		{"int", "value / (this.X * 2) > 0"}, {"int", "value % (this.X + 2) == 1"}, {"int", "value - (this.X - (this.Y - 1)) > 0"}, {"int", "(value - this.X) * (value + this.Y) > 0"},
+		{"int", "value * (10 / 4) == 20"}, {"int", "2 * (value / 2) == value"}, {"int64", "value * (this.X / 2) >= value"},
+		{"float64", "value + (0.2 + 0.3) == 0.6"}, {"float64", "value * (this.D / 3.0) > 1.0"}, {"float64", "value - (this.D - 0.5) > 0.0"}, {"float64", "value / (this.D * 2.0) < 1.0"},
+		{"uint8", "value * (7u / 2u) > 5u"}, {"uint", "value - (3u - 1u) > 0u"},
+		{"bool", "value && (this.B || !value)"}, {"bool", "value || (this.B && !value)"}, {"int", "value > 1 && (value < 5 || this.B) && this.X >= 0"},
+		{"string", "matches(value, '^a')"}, {"string", "matches(value, '^[a-z]+$')"}, {"string", "contains(value, 'b')"}, {"string", "endsWith(value, 'c')"}, {"string", "matches(value, this.S)"},
 		{"string", "value.matches('^a') || bool(value)"}, {"map[string]int", "has(value.a)"}, {"int", "has(this.X) && value > 0"},
 	}
 	var out []celCase
